@@ -162,6 +162,7 @@ type vOrigin struct {
 	body   string
 	ctype  string
 	hdr    string
+	enc    string
 }
 
 type vStored struct {
@@ -216,12 +217,14 @@ func VH_C14_sequential(caseID int) {
 	app.All("/:k", func(c fiber.Ctx) error {
 		originRuns++
 		c.Set("Content-Type", cur.ctype)
+		c.Set("Content-Encoding", cur.enc)
 		c.Set("X-Extra", cur.hdr)
 		return c.Status(cur.status).SendString(cur.body)
 	})
 
 	model := map[string]*vStored{}
 	now := int64(0)
+	sharedCtx := &fasthttp.RequestCtx{}
 	for r := 0; r < 3; r++ {
 		rs := strconv.Itoa(r)
 		// request-specific menus keep the product of choices small: request 0 seeds the cache,
@@ -229,6 +232,9 @@ func VH_C14_sequential(caseID int) {
 		gap := 0
 		if r > 0 {
 			gap = 1 + vChoice("gap"+rs, 2) // 1 s (fresh) or 2 s (= Expiration) later
+			if r == 1 && vChoice("gap0", 2) == 1 {
+				gap = 0 // right away: an entry stored by request 0 is still live at request 2
+			}
 			vAdvanceReal(gap)
 			now += int64(gap)
 		}
@@ -249,13 +255,16 @@ func VH_C14_sequential(caseID int) {
 			statuses = []int{204}
 		}
 		invalidate = withInval && r > 0 && vChoice("inval"+rs, 2) == 1
-		cur = vOrigin{status: statuses[vChoice("status"+rs, len(statuses))], ctype: "text/x" + rs, hdr: "h" + rs}
+		cur = vOrigin{status: statuses[vChoice("status"+rs, len(statuses))], ctype: "text/x" + rs, hdr: "h" + rs, enc: "enc" + rs}
 		cur.body = "B" + vString("body"+rs, blens[vChoice("blen"+rs, len(blens))])
 		for i := 1; i < len(cur.body); i++ {
 			vAssume(cur.body[i] > 0x20)
 			vAssume(cur.body[i] < 0x7f)
 		}
-		fctx := &fasthttp.RequestCtx{}
+		// all requests arrive on one connection: its request and response objects are recycled
+		fctx := sharedCtx
+		fctx.Request.Reset()
+		fctx.Response.Reset()
 		fctx.Request.Header.SetMethod(method)
 		fctx.Request.SetRequestURI(path)
 		if directive != "" {
@@ -279,6 +288,7 @@ func VH_C14_sequential(caseID int) {
 				vAssert(fctx.Response.StatusCode() == m.o.status, "hit-status")
 				vAssert(string(fctx.Response.Body()) == m.o.body, "hit-body")
 				vAssert(string(fctx.Response.Header.ContentType()) == m.o.ctype, "hit-content-type")
+				vAssert(string(fctx.Response.Header.ContentEncoding()) == m.o.enc, "hit-content-encoding")
 				if storeHdrs {
 					vAssert(string(fctx.Response.Header.Peek("X-Extra")) == m.o.hdr, "hit-stored-header")
 				}
@@ -289,11 +299,12 @@ func VH_C14_sequential(caseID int) {
 			vAssert(fctx.Response.StatusCode() == cur.status, "miss-status")
 			vAssert(string(fctx.Response.Body()) == cur.body, "miss-body")
 			// update the model: stored iff GET, not no-store, cacheable status, fits MaxBytes
-			if m := model[key]; m != nil && (now >= m.exp || invalidate) {
+			noStore := directive == "no-store" || directive == "private, no-store"
+			// a no-store request bypasses the cache entirely: nothing is looked up, invalidated or stored
+			if m := model[key]; m != nil && !noStore && (now >= m.exp || invalidate) {
 				delete(model, key)
 			}
 			cacheable := cur.status == 200 || cur.status == 204 || cur.status == 404
-			noStore := directive == "no-store" || directive == "private, no-store"
 			if method == "GET" && !noStore && cacheable && (maxBytes == 0 || uint(len(cur.body)) <= maxBytes) {
 				model[key] = &vStored{o: cur, exp: now + expFor(path)}
 			}
